@@ -522,8 +522,29 @@ def run(res, tier, seed):
 
 
 def replay(path):
-    events = vlib.read_ndjson(path)
-    rejects, _ = vlib.tlc_validate_sharded(TRACE, events, shards=1, tag="c18replay")
+    """re-runs the recorded case(s) on the current build of the working tree and validates the fresh events"""
+    recorded = [e for e in vlib.read_ndjson(path) if e.get("e") == "Conv"]
+    cases = []
+    for e in recorded:
+        c = {"dir": e["dir"]}
+        if "in" in e:
+            c["in"] = e["in"]
+        elif "arg" in e:
+            c["arg"] = e["arg"]
+        else:
+            c["bits"] = "%04x%04x%04x%04x" % tuple(e["bits"])
+        cases.append(c)
+    wd = vlib.workdir("c18-replay-%d" % os.getpid())
+    events, problems = run_harness(vlib.build_harness("c18"), cases, wd, "replay", 1)
+    if problems:
+        print("harness failed: %s" % (problems[0],))
+        return 2
+    flat = []
+    for ev in events:
+        flat += [{"e": "Reset"}, {k: v for k, v in ev.items() if k != "pid"}]
+    rejects, _ = vlib.tlc_validate_sharded(TRACE, flat, shards=1, tag="c18replay")
     for r in rejects:
-        print("REJECTED line %d: %s" % (r["line"], r["msg"]))
+        ev = events[r["line"] // 2]
+        print("REJECTED %s  %s -> %s" % (r["msg"], repr(txt(ev["in"])) if "in" in ev else ev.get("arg", ev.get("bits")),
+                                          repr(txt(ev["out"])) if "out" in ev else ev.get("crash")))
     return 1 if rejects else 0
